@@ -157,7 +157,7 @@ func (r *Run) randMod() [][]byte {
 		x = r.Bytes(r.Pick(0, 6, 6, 16))
 	case 11:
 		x = []byte{byte(r.Pick(82, 61, 54, 55, 53, 50, 1, 51, 200))}
-		y = r.Bytes(r.Pick(0, 1, 4, 7))
+		y = r.Bytes(r.Pick(0, 1, 4, 7, 255, 256, 300))
 	case 13:
 		x = []byte{byte(r.Rng.Intn(9))}
 	case 14:
@@ -246,7 +246,7 @@ func genC15(r *Run) {
 			case 1:
 				opts[c] = []byte{}
 			default:
-				opts[c] = r.Bytes(1 + r.Rng.Intn(8))
+				opts[c] = r.Bytes(r.Pick(1+r.Rng.Intn(8), 1+r.Rng.Intn(8), 254, 255, 256, 257, 300, 600)) // long values arrive split over several instances
 			}
 		}
 		if r.Rng.Intn(2) == 0 {
